@@ -464,7 +464,10 @@ def build(cfg, tag, instrument=False):
     """Returns dict: sources {module name: text}, main module name, per-call predicted stacks,
     and the order in which the calls are executed."""
     table = cfg["table"]
-    mname, aname = f"c16m_{tag}", f"c16a_{tag}"
+    # one configuration in four lives in modules whose names begin like the library's own package ("predicates_...",
+    # "predicate_rules_..."): user modules are user modules whatever they are called
+    pre = {"3": "predicates_", "7": "predicate_rules_"}.get(str(tag)[-1], "")
+    mname, aname = f"{pre}c16m_{tag}", f"{pre}c16a_{tag}"
     sources = {}
     where = cfg["where"]
     lines, q, modframe = [], "", []
@@ -664,7 +667,7 @@ def _snap(ci, _p):
     from predicate.predicate import Predicate
     fr = sys._getframe(1)
     frames = []
-    while fr is not None and str(fr.f_globals.get("__name__", "")).startswith("c16"):
+    while fr is not None and (lambda n: n.startswith("c16") or n.startswith(("predicates_c16", "predicate_rules_c16")))(str(fr.f_globals.get("__name__", ""))):
         frames.append([(k, id(v), isinstance(v, Predicate)) for k, v in fr.f_locals.items()])
         fr = fr.f_back
     _obs[ci] = frames
@@ -978,6 +981,75 @@ FINDING_OF_FLAG = {"identity": "KF-selfRefEq", "cacheNone": "KF-unresolvedCached
 # ------------------------------------------------------------------ main
 
 
+def analysis_before_first_call(chk, tier):
+    """Directed histories: a recursive predicate P is handed to the analysis functions (to_dot, to_json, optimize, negate,
+    can_optimize, implies), alone and inside a larger predicate `P | is_int_p`, BEFORE its first call; afterwards P must
+    still denote its own recursive definition.  (Drawing or rendering a predicate is not a definition: it must not bind
+    the references inside it.)  Judged against a plain recursive function; no model involved."""
+    import predicate as P_
+    from predicate.implies import implies
+    from predicate.negate import negate
+
+    vals = ["a", 1, None, [], ["a"], [1], ["a", "b"], ["a", 1], [[]], [["a"]], [[1]], [["a"], "b"], ["a", ["b", [1]]], [[["a"]]], [13], [[13], "a"]]
+
+    def ref(x):
+        return isinstance(x, str) or (isinstance(x, list) and all(ref(e) for e in x))
+
+    ops = {
+        "to_dot": lambda q: P_.to_dot(q),
+        "to_dot(show_optimized)": lambda q: P_.to_dot(q, show_optimized=True),
+        "to_json": lambda q: P_.to_json(q),
+        "optimize": lambda q: P_.optimize(q),
+        "can_optimize": lambda q: P_.can_optimize(q),
+        "negate": lambda q: negate(q),
+        "implies": lambda q: implies(q, P_.is_int_p),
+    }
+
+    def scenario(kind, opname, larger, bind):
+        is_str_p, is_int_p, is_list_of_p = P_.is_str_p, P_.is_int_p, P_.is_list_of_p
+        if kind == "this":
+            P = is_str_p | is_list_of_p(P_.this_p)
+        elif kind == "root":
+            P = is_str_p | is_list_of_p(P_.root_p)
+        else:
+            P = is_str_p | is_list_of_p(P_.lazy_p("P"))
+        # (no local of this frame other than Q may hold the larger predicate: it would be "a larger predicate in scope")
+        try:
+            if bind:
+                Q = P | is_int_p  # noqa: F841  a larger predicate in scope, defined after P
+                ops[opname](Q if larger else P)
+            elif larger:
+                ops[opname](P | is_int_p)
+            else:
+                ops[opname](P)
+        except Exception:  # noqa: BLE001  (an analysis function that raises is C17/C18/C12's business)
+            pass
+        out = []
+        for v in vals:
+            try:
+                out.append(bool(P(v)))
+            except Exception as e:  # noqa: BLE001
+                out.append(type(e).__name__)
+        return out
+
+    want = [ref(v) for v in vals]
+    n = 0
+    for kind in ("this", "root", "lazy"):
+        for opname in ops:
+            for larger in (False, True):
+                for bind in (False, True):
+                    if kind == "root" and bind:
+                        continue  # root_p is specified only when P is not part of a larger predicate in scope
+                    got = scenario(kind, opname, larger, bind)
+                    n += 1
+                    if got != want:
+                        k = next(i for i, (a, b) in enumerate(zip(got, want)) if a != b)
+                        chk.add_failure({"history": f"P = is_str_p | is_list_of_p({kind}_p{'(\"P\")' if kind == 'lazy' else ''}); {opname}({'P | is_int_p' if larger else 'P'}){' with Q = P | is_int_p bound in scope' if bind else ''}; then P(x)", "x": repr(vals[k])},
+                                        {"what": "after an analysis function was applied before the first call, P no longer denotes its recursive definition", "P(x)": got[k], "expected": want[k]}, None)
+    chk.evaluations += n * len(vals)
+    chk.extra["analysis_before_first_call_scenarios"] = n
+
+
 def main(tier):
     chk = Check("C16", tier)
     chk.prove(checker=(tier == "thorough"), exes=("driver_scope",))
@@ -1137,6 +1209,7 @@ def main(tier):
                 key = f"is_json_p | callers in order {s} | caller {caller} | demanded {e} got {r}"
                 fail_tab[key] = fail_tab.get(key, 0) + 1
                 chk.add_failure({"json_values": [repr(x[0]) for x in jvals], "value_index": pos % len(jvals), "callers_in_order": s, "caller": caller, "value": repr(v[0]), "source": json_source(caller, 1)[0]}, {"expected": e, "got": r, "what": "is_json_p depends on the names bound by its caller"}, explained)
+    analysis_before_first_call(chk, tier)
     chk.add_corr("scope/is_json_p", jn_cases, jdis, note=f"{len(seqs)} caller sequences x {len(jvals)} values")
     chk.evaluations += jn_cases
     # -- thorough: one canonical configuration per flavour on ALL nested lists of depth <= 3 / width <= 2
